@@ -28,6 +28,8 @@ func runC05(c *Ctx, r *Report) {
 	c05NoSharedValues(c, r)
 	c05EncodingConsulted(c, r)
 	c05PopenFileName(c, r)
+	c05EndContext(c, r)
+	c05FileNameFlagsAppend(c, r)
 	r.Rule("R05.10", "the verbs do not consult the reader's record counters: in pkg/transformers (and its utils) every read of Context.NR or Context.FNR feeds only a formatted diagnostic (or the chain runner's progress line) — the DSL's NR/FNR are read by the interpreter, not by the verbs; a verb that decides its output from NR differs between a then-chain and a pipe whenever an earlier verb drops, adds or reorders records")
 	checkNoReaderCounters(c, r, "R05.10", nil, 300)
 }
